@@ -1,9 +1,16 @@
 (* C08 - different task invocations never share an identifier.
-   The full statement is FALSE of the faithful model (and of the code): C08_refuted.
-   What is proved around it: see DESIGN.md (C08) - the collisions the checker tolerates as the
-   recorded known finding are exactly those that a length chunk after each container marker
-   ([dstream]) separates. *)
-From Coq Require Import List PArith Bool Permutation.
+   The full statement is FALSE of the faithful model (and of the code): C08_refuted (known finding
+   D1: hash_update writes no length/terminator after a container marker).  Proved around it:
+   - [dstream] (= [stream] plus one length chunk after every container marker) is an injective
+     prefix code on the task-invocation universe [wfb] (no CustomHash/NoHash; a pickle is never a
+     container-marker byte string; the ndarray branch taken agrees with the dtype; objects hashed
+     through __jug_hash__ feed an optional non-label marker and then labelled fields);
+   - the real [stream] is exactly that code with the length chunks erased;
+   - hence real identifiers can collide ONLY by disagreeing on container extents ([lens]);
+   - the same at the level of digests under A1 (the hash is injective) and A2 (the byte rendering
+     of a chunk sequence is uniquely decodable), both explicit premises.
+   [pv_equiv] = equal up to the memory layout of arrays (which the hash ignores by design, C07). *)
+From Coq Require Import List PArith Bool Permutation Sorted.
 From JugV Require Import Model.Hash Proofs.HashFacts Proofs.HashInjFacts.
 Import ListNotations.
 
@@ -23,3 +30,98 @@ Theorem C08_refuted_kwargs :
   exists v v' : pv, stream v = stream v' /\ v <> v' /\ dstream v <> dstream v'.
 Proof. exact collision_witness_kwargs. Qed.
 Print Assumptions C08_refuted_kwargs.
+
+(* With a length chunk after each container marker the chunk sequence is a prefix code: equal
+   codes (even followed by arbitrary further chunks) come from the same invocation. *)
+Theorem C08_dstream_prefix_free :
+  forall (isobj : positive -> bool) (v v' : pv) (r r' : list tok),
+    wfb isobj v = true -> wfb isobj v' = true ->
+    dstream v ++ r = dstream v' ++ r' -> pv_equiv v v' /\ r = r'.
+Proof. exact dstream_prefix_free. Qed.
+Print Assumptions C08_dstream_prefix_free.
+
+Theorem C08_dstream_injective :
+  forall (isobj : positive -> bool) (v v' : pv),
+    wfb isobj v = true -> wfb isobj v' = true -> dstream v = dstream v' -> pv_equiv v v'.
+Proof. exact dstream_injective. Qed.
+Print Assumptions C08_dstream_injective.
+
+(* ... and conversely equivalent invocations have the same chunks, delimited or not, and the
+   same extents: on the universe, [dstream v = dstream v'] IS "the same invocation" *)
+Theorem C08_equiv_same_stream :
+  forall (delim : bool) (v v' : pv),
+    pv_equiv v v' -> stream_elem delim v = stream_elem delim v' /\ lensd delim v = lensd delim v'.
+Proof. exact pv_equiv_stream. Qed.
+Print Assumptions C08_equiv_same_stream.
+
+(* The chunk sequence the code really feeds is the delimited one with the length chunks erased
+   ([erase]: one pass over the chunks, dropping the chunk after a list/tuple/set/frozenset/dict
+   marker and the 4th chunk after b'np.ndarray' when the dtype has objects). *)
+Theorem C08_stream_erases :
+  forall (isobj : positive -> bool) (v : pv),
+    wfb isobj v = true -> stream v = erase isobj (dstream v).
+Proof. exact stream_erases. Qed.
+Print Assumptions C08_stream_erases.
+
+(* Identifiers can only collide by disagreeing on container extents. *)
+Theorem C08_partial :
+  forall (isobj : positive -> bool) (v v' : pv),
+    wfb isobj v = true -> wfb isobj v' = true ->
+    stream v = stream v' -> lens v = lens v' -> pv_equiv v v'.
+Proof. exact stream_lens_injective. Qed.
+Print Assumptions C08_partial.
+
+(* The same for digests.  Hb stands for SHA-1 on byte strings, render for the bytes of one chunk.
+   A1: Hb is injective.  A2: the concatenation of rendered chunks is uniquely decodable.
+   [atoms D H ts] replaces every nested digest token by the digest H computes. *)
+Theorem C08_delimited_identifier_injective :
+  forall (D B : Type) (render : atom D -> list B) (Hb : list B -> D),
+    (forall x y : list B, Hb x = Hb y -> x = y) ->
+    (forall l l' : list (atom D), flat_map render l = flat_map render l' -> l = l') ->
+  forall (isobj : positive -> bool) (v v' : pv),
+    wfb isobj v = true -> wfb isobj v' = true ->
+    atoms D (fun l => Hb (flat_map render l)) (dstream v) =
+    atoms D (fun l => Hb (flat_map render l)) (dstream v') ->
+    pv_equiv v v'.
+Proof. exact dident_injective. Qed.
+Print Assumptions C08_delimited_identifier_injective.
+
+(* The identifiers the code really computes ([fl]: items.sort() of set and dict items by digest
+   included), for values whose set/dict children are listed in ascending digest order - every
+   Python value has such a listing, and it is how the check lists them. *)
+Theorem C08_partial_identifiers :
+  forall (D B : Type) (render : atom D -> list B) (Hb : list B -> D),
+    (forall x y : list B, Hb x = Hb y -> x = y) ->
+    (forall l l' : list (atom D), flat_map render l = flat_map render l' -> l = l') ->
+  forall (isobj : positive -> bool) (leD : D -> D -> bool),
+    (forall a b, leD a b = true \/ leD b a = true) ->
+    (forall a b, leD a b = true -> leD b a = true -> a = b) ->
+    (forall a b c, leD a b = true -> leD b c = true -> leD a c = true) ->
+  forall v v' : pv,
+    wfb isobj v = true -> wfb isobj v' = true ->
+    hsorted D leD (fun l => Hb (flat_map render l)) v ->
+    hsorted D leD (fun l => Hb (flat_map render l)) v' ->
+    fl D leD (fun l => Hb (flat_map render l)) v = fl D leD (fun l => Hb (flat_map render l)) v' ->
+    lens v = lens v' -> pv_equiv v v'.
+Proof. exact ident_partial. Qed.
+Print Assumptions C08_partial_identifiers.
+
+(* non-vacuity: A1, A2 and the order hypotheses are jointly satisfiable (digest = the byte string
+   itself, length-prefixed rendering, lexicographic order); f([1, <array>], {'a'}, <object array>,
+   k={'b': f()[0]}) with two different array layouts is a pair of different values of the universe
+   with equal streams and extents; and the refuting pair f([1],2) / f([1,2]) lies in the universe
+   and disagrees on the extents. *)
+Example C08_nonvacuous :
+  (exists (D B : Type) (render : atom D -> list B) (Hb : list B -> D) (leD : D -> D -> bool),
+     (forall x y, Hb x = Hb y -> x = y) /\
+     (forall l l' : list (atom D), flat_map render l = flat_map render l' -> l = l') /\
+     (forall a b, leD a b = true \/ leD b a = true) /\
+     (forall a b, leD a b = true -> leD b a = true -> a = b) /\
+     (forall a b c, leD a b = true -> leD b c = true -> leD a c = true) /\
+     hsorted D leD (fun l => Hb (flat_map render l)) (exv 0) /\ hsorted D leD (fun l => Hb (flat_map render l)) (exv 1)) /\
+  wfb isobj0 (exv 0) = true /\ wfb isobj0 (exv 1) = true /\ exv 0 <> exv 1 /\
+  dstream (exv 0) = dstream (exv 1) /\ stream (exv 0) = stream (exv 1) /\ lens (exv 0) = lens (exv 1) /\
+  lens (exv 0) = [3; 2; 1; 2; 0; 1; 1; 0; 0; 2]%nat /\
+  wfb isobj0 w1 = true /\ wfb isobj0 w2 = true /\ lens w1 <> lens w2.
+Proof. exact hypotheses_satisfiable. Qed.
+Print Assumptions C08_nonvacuous.
